@@ -188,7 +188,7 @@ func main() {
 				// go version constraint upgrades this file only.
 				if i := strings.Index(src, "//go:build "); i >= 0 {
 					j := i + strings.IndexByte(src[i:], '\n')
-					expr := strings.TrimSpace(src[i+len("//go:build "):j])
+					expr := strings.TrimSpace(src[i+len("//go:build ") : j])
 					src = src[:i] + "//go:build (" + expr + ") && go1.23" + src[j:]
 				} else {
 					src = "//go:build go1.23\n\n" + src
